@@ -1,5 +1,6 @@
 import QuicModel.Codec.TransportParams
 import QuicModel.Generated.TransportParams
+import QuicModel.Rfc.TransportParams
 /-
   Tie G for transport parameters: the table tools/extractors/transport_params.py read from /repo
   *now* (IDs, DisabledParameter-in-client-type, CodecValue types, validator operator + constant,
@@ -62,5 +63,42 @@ theorem omit_default_eq : Quic.Generated.TransportParams.encoderOmitsDefault = t
 theorem cid_max_eq : Quic.Generated.TransportParams.cidMaxLen = 20 := by decide
 theorem cid_range_eq : Quic.Generated.TransportParams.cidRangeCheckIsMinToMaxInclusive = true := by decide
 theorem dc_versions_max_eq : Quic.Generated.TransportParams.dcVersionsMaxLen = 4 := by decide
+
+/-! ### the Lean RFC table vs the offline RFC text (/repo/specs/…/rfc9000/18.2.toml) -/
+
+open Quic.Rfc.TransportParams in
+/-- names and ids of `Rfc.TransportParams.rfc9000` are the `name (0xNN):` definitions of §18.2, in order -/
+theorem rfc_params_eq :
+    rfc9000.map (fun r => (r.name, r.id)) = Quic.Generated.TransportParams.rfcParams := by decide
+
+open Quic.Rfc.TransportParams in
+/-- the numbers of the normative sentences are the bounds/defaults of the table rows:
+    default 3 / "above 20 invalid"; default 25 / "2^14 or greater invalid"; default 65527 / "below 1200 invalid";
+    "at least 2" / default 2; "a sequence of 16 bytes" -/
+theorem rfc_numbers_eq :
+    Quic.Generated.TransportParams.rfcNumbers =
+      (match lookupIn rfc9000 0x0a, lookupIn rfc9000 0x0b, lookupIn rfc9000 0x03, lookupIn rfc9000 0x0e, lookupIn rfc9000 0x02 with
+       | some ⟨_, _, .integer _ adeHi, some adeD, _⟩, some ⟨_, _, .integer _ madHi, some madD, _⟩,
+         some ⟨_, _, .integer udpLo _, some udpD, _⟩, some ⟨_, _, .integer acidLo _, some acidD, _⟩,
+         some ⟨_, _, .bytes n, _, _⟩ =>
+         [("ack_delay_exponent.default", adeD), ("ack_delay_exponent.above_invalid", adeHi),
+          ("max_ack_delay.default", madD), ("max_ack_delay.pow2_or_greater_invalid", Nat.log2 (madHi + 1)),
+          ("max_udp_payload_size.default", udpD), ("max_udp_payload_size.below_invalid", udpLo),
+          ("active_connection_id_limit.at_least", acidLo), ("active_connection_id_limit.default", acidD),
+          ("stateless_reset_token.bytes", n)]
+       | _, _, _, _, _ => []) := by decide
+
+open Quic.Rfc.TransportParams in
+/-- max_ack_delay's upper bound is exactly 2^14 - 1 (not merely something with log2 = 14) -/
+theorem rfc_max_ack_delay_bound :
+    (lookupIn rfc9000 0x0b).map (fun r => r.kind) = some (.integer 0 (2 ^ 14 - 1)) := by decide
+
+open Quic.Rfc.TransportParams in
+theorem rfc_server_only_eq :
+    (rfc9000.filter (fun r => r.serverOnly)).map (fun r => r.name)
+      = ["original_destination_connection_id", "stateless_reset_token", "preferred_address", "retry_source_connection_id"]
+    ∧ Quic.Generated.TransportParams.rfcServerOnly
+      = ["original_destination_connection_id", "preferred_address", "retry_source_connection_id", "stateless_reset_token"] := by
+  decide
 
 end Quic.Proofs.Bridge.TransportParams
